@@ -61,20 +61,29 @@ def plan(ctx):
                          "tag": tag or "fresh"})
 
     a = L.make_shape("A", [3, 2], kinds=["DID", "II"])
+    # single-statement files (first / middle / last; a lone INSERT is the only shape in which "the statement and
+    # its revision write are one transaction" can break without any other statement noticing), an empty file,
+    # a file that is DDL only, non-idempotent DDL (its second execution fails the re-run; file/all mode only)
+    s1 = L.make_shape("S", [1, 1, 2, 0, 2, 1], kinds=["D", "I", "II", "", "DX", "I"])
+    s2 = L.make_shape("T", [2, 1, 1], kinds=["DI", "X", "I"])
+    pz = L.make_shape("P", [2, 3], kinds=["DI", "IDI"])
     if ctx.quick():
         add(a)
         add(random_shape(ctx, "Q", 3, 3, "quick"))
-        # one seeded configuration of the kinds thorough enumerates fully
-        pick = ctx.rand("quick-extra").randrange(3)
-        if pick == 0:
-            p = L.make_shape("P", [2, 3], kinds=["DI", "IDI"])
-            add(p, modes=(ctx.rand("quick-extra-mode").choice(MODES),),
-                prefix=[{"via": "hook", "at": rev_after_recording(p, 1, 0), "global": "none"}], tag="partial-start")
-        elif pick == 1:
-            add(L.make_shape("Dn", [2, 2, 2], directives={1: "none"}), modes=("file",), tag="directive")
-        else:
-            add(L.make_shape("DfL", [2, 2, 2], directives={2: "file"}), modes=("none",), tag="directive")
+        add(s1, modes=("file", "all"))
+        add(L.relaxed(s1, "Sn"), modes=("none",))
+        add(s2, modes=("file", "all"))
+        # the kinds thorough enumerates in more variants: partial start, directives, WAL
+        add(pz, prefix=[{"via": "hook", "at": rev_after_recording(pz, 1, 0), "global": "none"}], tag="partial-start")
+        add(L.make_shape("Dn", [2, 1, 2], directives={1: "none"}), modes=("file",), tag="directive")
+        add(L.make_shape("DfL", [2, 2, 1], directives={2: "file"}), modes=("none",), tag="directive")
+        add(L.make_shape("DfM", [2, 1, 2], directives={1: "file"}), modes=("none",), tag="directive")
+        add(a, modes=("file",), params="_journal_mode=WAL", tag="wal")
         return cfgs
+    add(s1, modes=("file", "all"))
+    add(L.relaxed(s1, "Sn"), modes=("none",))
+    add(s2, modes=("file", "all"))
+    add(L.make_shape("U", [1, 1, 1], kinds=["D", "I", "I"]), strace=True)
     add(a, strace=True)
     add(L.make_shape("C", [2, 3, 1], kinds=["DI", "IDI", "I"]))
     add(L.make_shape("D", [4], kinds=["DIII"]))
